@@ -82,7 +82,7 @@ def handle (j : Json) : Except String Json := do
   | "add_trivial_leg" =>
     let a ← getA
     return resToJson [a] (.one (a.addTrivialLeg (← getInt (← field j "axis")) (← getInt (← field j "qconj"))))
-  | "squeeze" => let a ← getA; return resToJson [a] (resOfOpt (a.squeeze (← optIntList j "axes")))
+  | "squeeze" => let a ← getA; return resToJson [a] (resOfOpt2 (a.squeeze (← optIntList j "axes")))
   | "isort_qdata" => let a ← getA; return resToJson [a] (.one a.isortQdata)
   | "ipurge_zeros" => let a ← getA; return resToJson [a] (.one (a.ipurgeZeros (← boolList (← field j "keep"))))
   | "iscale_prefactor" =>
